@@ -271,6 +271,28 @@ func judgeOrder(kinds []string, chans []string, connectChannels map[string]bool)
 	return classes, replyIdx
 }
 
+// Every class is reported at most reportCap times per child process (later occurrences are only
+// counted): the runner stops a child after 50 violations, and a defect that fires in most cases
+// would otherwise truncate the run.
+const reportCap = 3
+
+var (
+	reportMu    sync.Mutex
+	reportCount = map[string]int{}
+)
+
+func report(c *kit.Case, class, msg string, detail any) {
+	reportMu.Lock()
+	reportCount[class]++
+	n := reportCount[class]
+	reportMu.Unlock()
+	c.Count("violations_observed_"+class, 1)
+	if n > reportCap {
+		return
+	}
+	c.Violation(class, msg, detail)
+}
+
 func setOnce(m map[string]string, k, v string) {
 	if _, ok := m[k]; !ok {
 		m[k] = v
@@ -526,7 +548,7 @@ func runPart1(c *kit.Case) {
 			}
 			for cls, why := range classes {
 				c.Count("p1_violations_"+cls, 1)
-				c.Violation(cls, fmt.Sprintf("connection %d (%s, user %s): %s; the connect reply is frame %d of %d", cfg.Idx, cfg.Proto, cfg.User, why, replyIdx, len(frames)),
+				report(c, cls, fmt.Sprintf("connection %d (%s, user %s): %s; the connect reply is frame %d of %d", cfg.Idx, cfg.Proto, cfg.User, why, replyIdx, len(frames)),
 					map[string]any{"config": cfg, "frames_up_to_connect_reply": head, "racing_operations": opl})
 			}
 		}
@@ -575,7 +597,7 @@ func inBubble(c *kit.Case, fn func(c *kit.Case)) {
 	synctest.Test(outer, func(bt *testing.T) {
 		defer func() {
 			if r := recover(); r != nil {
-				c.Violation("panic:"+fmt.Sprint(r), fmt.Sprintf("panic: %v", r), string(debug.Stack()))
+				report(c, "panic:"+fmt.Sprint(r), fmt.Sprintf("panic: %v", r), string(debug.Stack()))
 			}
 		}()
 		c.T = bt
@@ -606,11 +628,12 @@ func TestC11(t *testing.T) {
 			"Client.Send is applied to clients obtained from Node.Hub().UserConnections, i.e. only once the client is registered",
 			"a disconnect push that is the only thing written (no connect reply ever) is accepted: it is how the protocol refuses a connection",
 			"part 2: when the raw client sees the server's TCP close less than 3 s after the close frame, the handler goroutine has left its read loop, so connectCmd and Client.close are over and DictionaryConnection.Close must have been called; OnDisconnect runs after CloseDictionaryCompression in Client.close, so Close must have been called when it fires",
-			"part 2 waits are bounded (10-20 s); a timeout makes the case inconclusive",
+			"part 2 waits are bounded (10-45 s); a timeout makes the case inconclusive",
+			"each violation class is reported at most 3 times per child process (the rest is counted in violations_observed_<class>) so that a frequent finding does not truncate the run",
 			"the recording engine sleeps up to 300 microseconds inside Encode and Close to widen overlap windows",
 		},
-		Cases:       map[string]int{"quick": 800, "thorough": 12000},
-		CaseTimeout: 150 * time.Second,
+		Cases:       map[string]int{"quick": 640, "thorough": 9600},
+		CaseTimeout: 300 * time.Second,
 		RequireCounters: []string{
 			"p1_connect_replies_observed", "p1_connections_with_positioned_subs", "p1_connections_without_positioned_subs",
 			"p1_op_started_in_hub_before_connect_reply_send", "p1_op_started_in_hub_before_connect_reply_nsub", "p1_op_started_in_hub_before_connect_reply_refresh",
